@@ -98,17 +98,19 @@ def _set_multiple_entries(net, table, index, preserve_dtypes=True, defaults_to_f
 
     # extend the table by the frame we just created
     if len(net[table]):
-        net[table] = pd.concat([net[table], dd[dd.columns[~dd.isnull().all()]]], sort=False)
+        new_table = pd.concat([net[table], dd[dd.columns[~dd.isnull().all()]]], sort=False)
     else:
         dd_columns = dd.columns[~dd.isnull().all()]
         complete_columns = list(net[table].columns) + list(dd_columns.difference(net[table].columns))
         empty_dict = {key: empty_defaults_per_dtype(dtype) for key, dtype in net[table][net[
             table].columns.difference(dd_columns)].dtypes.to_dict().items()}
-        net[table] = dd[dd_columns].assign(**empty_dict)[complete_columns]
+        new_table = dd[dd_columns].assign(**empty_dict)[complete_columns]
 
-    # and preserve dtypes
+    # and preserve dtypes (raises for invalid entries such as NaN in a boolean column, therefore
+    # the table of the net is only replaced afterwards)
     if preserve_dtypes:
-        _preserve_dtypes(net[table], dtypes)
+        _preserve_dtypes(new_table, dtypes)
+    net[table] = new_table
 
 
 def create_empty_network(name="", fluid=None, add_stdtypes=True, sector=Sector.ALL):
@@ -194,6 +196,9 @@ def create_junction(net, pn_bar, tfluid_k, height_m=0, name=None, index=None, in
     add_new_component(net, Junction)
 
     index = _get_index_with_check(net, "junction", index)
+
+    if geodata is not None and len(geodata) != 2:
+        raise UserWarning("geodata must be given as (x, y) tuple")
 
     cols = ["name", "pn_bar", "tfluid_k", "height_m", "in_service", "type"]
     vals = [name, pn_bar, tfluid_k, height_m, bool(in_service), type]
@@ -1268,6 +1273,11 @@ def create_junctions(net, nr_junctions, pn_bar, tfluid_k, height_m=0, name=None,
     add_new_component(net, Junction)
 
     index = _get_multiple_index_with_check(net, "junction", index, nr_junctions)
+    if geodata is not None:
+        # check before anything is written: a 2-tuple or one (x, y) pair per junction
+        geo_shape = np.shape(geodata)
+        if geo_shape != (2,) and geo_shape != (len(index), 2):
+            raise ValueError("geodata must be given as (x, y) tuple or as one (x, y) tuple per junction")
     entries = {"pn_bar": pn_bar, "type": type, "tfluid_k": tfluid_k, "height_m": height_m, "in_service": in_service,
                "name": name}
     _set_multiple_entries(net, "junction", index, **entries, **kwargs)
@@ -1524,6 +1534,8 @@ def create_pipes(net, from_junctions, to_junctions, std_type, length_km,
                "outer_diameter_mm": pipe_parameters["outer_diameter_mm"], "k_mm": pipe_parameters["k_mm"],
                "loss_coefficient": loss_coefficient, "u_w_per_m2k": pipe_parameters['u_w_per_m2k'],
                "sections": sections, "in_service": in_service, "type": type, "text_k": text_k}
+    if geodata is not None:
+        _check_multiple_branch_geodata(geodata, index)
     _set_multiple_entries(net, "pipe", index, **entries, **kwargs)
 
     if geodata is not None:
@@ -1623,6 +1635,8 @@ def create_pipes_from_parameters(net, from_junctions, to_junctions, length_km,
         raise UserWarning('you have defined a std_type, however, using this function you can only '
                           'create a pipe setting specific, individual parameters. If you want to '
                           'create a pipe from net.std_types, please use `create_pipe`')
+    if geodata is not None:
+        _check_multiple_branch_geodata(geodata, index)
     _set_multiple_entries(net, "pipe", index, **entries, **kwargs)
 
     if geodata is not None:
@@ -2039,6 +2053,14 @@ def _check_std_type(net, std_type, table, function_name):
     if std_type not in net['std_types'][table]:
         raise UserWarning('%s is not given in std_types (%s). Either change std_type or define new '
                           'one' % (std_type, table))
+
+
+def _check_multiple_branch_geodata(geodata, index):
+    """ Raises before any element is created if the geodata does not fit to the number of elements. """
+    single_list = len(geodata[0]) == 2 and not hasattr(geodata[0][0], "__iter__")
+    if not single_list and len(geodata) != len(index):
+        raise ValueError("geodata must either be a single list of coordinates or contain one list of "
+                          "coordinates per element (%d given for %d elements)" % (len(geodata), len(index)))
 
 
 def _add_multiple_branch_geodata(net, table, geodata, index):
